@@ -84,9 +84,12 @@ pub fn analyze_rows(egraph: &EGraph, enode: &Expr) -> Rows {
         And([a, b]) => x(a) * x(b), // TODO: consider dependency
         Or([a, b]) => x(a) + x(b) - x(a) * x(b), // TODO: consider dependency
         Xor([a, b]) => x(a) + x(b) - 2.0 * x(a) * x(b),
-        Not(a) => 1.0 - x(a),
+        Not(a) => (1.0 - x(a)).max(0.0),
         Gt(_) | Lt(_) | GtEq(_) | LtEq(_) | Eq(_) | NotEq(_) | Like(_) => 0.5,
-        In([_, b]) => 1.0 / x(b),
+        // (a subquery may be estimated below one row: a selectivity is at most 1. A larger value
+        // made `not (x in ..)` negative, and a plan with a negative row estimate gets cheaper every
+        // time the extractor goes around a cyclic e-class: it never finished)
+        In([_, b]) => (1.0 / x(b)).min(1.0),
         Exists(_) => 0.5,
 
         _ => 1.0,
